@@ -47,6 +47,10 @@ type Desc struct {
 	RunTo []string `json:"runto,omitempty"`
 	// RunToKind: "" = Run, "name" = RunTo, "regex" = RunToRegex, "procs" = RunToProcs
 	RunToKind string `json:"runtokind,omitempty"`
+	// Rounds: the workflow is built and run once per entry *in the same OS process*, and after each of
+	// these runs the listed paths are removed; then comes the final run (histories of runs that share
+	// whatever the library keeps in process-wide state)
+	Rounds [][]string `json:"rounds,omitempty"`
 }
 
 type proc interface {
@@ -136,6 +140,27 @@ func wfrunMain(descFile string) {
 		fmt.Fprintln(os.Stderr, "wfrun: bad desc", err)
 		os.Exit(3)
 	}
+	for i, rm := range d.Rounds {
+		buildAndRun(d)
+		sp.VerifHook("wfrun.round", fmt.Sprint(i))
+		for _, p := range rm {
+			os.RemoveAll(p)
+		}
+	}
+	buildAndRun(d)
+	// what is on disk at the instant Run returns (other goroutines may still be alive)
+	sp.VerifHook("wfrun.returned")
+	snap := listDir()
+	fmt.Println("WFRUN-RETURNED " + strings.Join(snap, " "))
+	if os.Getenv("VERIF_LINGER_MS") != "" {
+		var ms int
+		fmt.Sscanf(os.Getenv("VERIF_LINGER_MS"), "%d", &ms)
+		time.Sleep(time.Duration(ms) * time.Millisecond)
+		fmt.Println("WFRUN-LINGERED " + strings.Join(listDir(), " "))
+	}
+}
+
+func buildAndRun(d Desc) {
 	wf := sp.VerifNewWorkflowQuiet(d.Name, d.Max)
 	procs := map[string]sp.WorkflowProcess{}
 	for _, n := range d.Nodes {
@@ -255,15 +280,5 @@ func wfrunMain(descFile string) {
 			ps = append(ps, procs[n])
 		}
 		wf.RunToProcs(ps...)
-	}
-	// what is on disk at the instant Run returns (other goroutines may still be alive)
-	sp.VerifHook("wfrun.returned")
-	snap := listDir()
-	fmt.Println("WFRUN-RETURNED " + strings.Join(snap, " "))
-	if os.Getenv("VERIF_LINGER_MS") != "" {
-		var ms int
-		fmt.Sscanf(os.Getenv("VERIF_LINGER_MS"), "%d", &ms)
-		time.Sleep(time.Duration(ms) * time.Millisecond)
-		fmt.Println("WFRUN-LINGERED " + strings.Join(listDir(), " "))
 	}
 }
